@@ -227,6 +227,134 @@ def index_of(xs, x):
     return -1
 
 
+# ---------------------------------------------------------------------------
+# S tier 2: inductive step of add_extendor / remove_extendor on a symbolic partial order
+# ---------------------------------------------------------------------------
+
+def make_s_extendors(params, part, nparts):
+    """Pre-state: an `_extendors[key]` list of n<=3 stub interfaces in an order satisfying Inv (no element strictly
+    extends a later one), for an *arbitrary* partial order `extends` given by symbolic booleans (reflexive; antisymmetry
+    and transitivity assumed).  One real add_extendor(p) / remove_extendor(x): the list must contain exactly the
+    expected members once each and satisfy Inv again.  One step from every Inv-state covers registration
+    histories of any length for lists within the size bound."""
+    from zope.interface.adapter import AdapterLookupBase
+    NMAX = params.get('n', 3)
+
+    def h(n: int, op: int, which: int,
+          e01: bool, e02: bool, e03: bool, e10: bool, e12: bool, e13: bool,
+          e20: bool, e21: bool, e23: bool, e30: bool, e31: bool, e32: bool):
+        c_n = pick(n, NMAX + 1)
+        c_op = pick(op, 2)
+        assume((c_n * 2 + c_op) % nparts == part)
+        E = [[True, e01, e02, e03], [e10, True, e12, e13], [e20, e21, True, e23], [e30, e31, e32, True]]
+        live = list(range(c_n)) + [3]          # element 3 is the interface being added
+        # partial order axioms on the elements in play (placed before the code they constrain)
+        for a in live:
+            for b in live:
+                if a != b:
+                    assume(not (E[a][b] and E[b][a]))
+                    for c in live:
+                        if c != a and c != b:
+                            assume(not (E[a][b] and E[b][c]) or E[a][c])
+
+        class Stub:
+            def __init__(self, k, key):
+                self.k = k
+                self.__iro__ = (key,)
+
+            def isOrExtends(self, other):
+                return E[self.k][other.k]
+
+        key = object()
+        stubs = [Stub(k, key) for k in range(4)]
+        pre = stubs[:c_n]
+        # Inv on the pre-state: a more general interface never comes after a more specific one
+        for i in range(c_n):
+            for j in range(i + 1, c_n):
+                assume(not E[i][j])
+
+        class Self:
+            pass
+        me = Self()
+        me._extendors = {key: list(pre)}
+        reached(None, dict(n=c_n, op=c_op))
+        if c_op == 0:
+            AdapterLookupBase.add_extendor(me, stubs[3])
+            exp = pre + [stubs[3]]
+        else:
+            assume(c_n > 0)
+            w = pick(which, c_n)
+            AdapterLookupBase.remove_extendor(me, pre[w])
+            exp = [x for x in pre if x is not pre[w]]
+        got = me._extendors[key]
+        if len(got) != len(exp) or any(sum(1 for y in got if y is x) != 1 for x in exp):
+            raise Violation('extendors list %r does not contain exactly the live interfaces %r' % (
+                [x.k for x in got], [x.k for x in exp]), signature='C04:extendors:members')
+        for i in range(len(got)):
+            for j in range(i + 1, len(got)):
+                if E[got[i].k][got[j].k]:
+                    raise Violation('extendors list %r: element %d extends the later element %d (more specific before more general)' % (
+                        [x.k for x in got], got[i].k, got[j].k), signature='C04:extendors:order')
+    return h
+
+
+# ---------------------------------------------------------------------------
+# E tier 2: registration *order* on the provided side (the extendors table is order dependent)
+# ---------------------------------------------------------------------------
+
+PSH = ((), (0,), (0,), (1,), (1, 2))     # P0, P1(P0), P2(P0), P3(P1), P4(P1,P2)
+
+
+def run_provided_order(ops, flavour):
+    from zope.interface import Interface
+    from zope.interface.adapter import AdapterRegistry, VerifyingAdapterRegistry
+    from vlib import universe as U
+    mod = U.fresh_module_name()
+    (R0,) = U.build_ifaces(((),), prefix='R', module=mod)
+    P = U.build_ifaces(PSH, prefix='P', module=mod)
+    reg = (AdapterRegistry if flavour == 'adapter' else VerifyingAdapterRegistry)()
+    live = {}
+    hist = []
+    for k, (kind, pi) in enumerate(ops):
+        if kind == 'register':
+            v = 'v%d@%d' % (pi, k)
+            reg.register([R0], P[pi], '', v)
+            live[pi] = v
+        else:
+            reg.unregister([R0], P[pi], '')
+            live.pop(pi, None)
+        hist.append('%s([R0], P%d)' % (kind, pi))
+        for qi, Q in list(enumerate(P)) + [(-1, Interface)]:
+            cands = [pi_ for pi_ in live if P[pi_].isOrExtends(Q)]
+            adm = [pi_ for pi_ in cands if not any(pj != pi_ and P[pi_].extends(P[pj]) for pj in cands)]
+            got = reg.lookup([R0], Q, '')
+            what = 'provided DAG P0,P1(P0),P2(P0),P3(P1),P4(P1,P2); history [%s]; lookup([R0], %s)' % (
+                '; '.join(hist), 'P%d' % qi if qi >= 0 else 'Interface')
+            if not cands:
+                if got is not None:
+                    raise Violation('%s returned %r, nothing applies' % (what, got), signature='C04:spurious')
+            elif not any(got == live[a] for a in adm):
+                raise Violation('%s returned %r; registrations with the most general applicable provided interface: %r' % (
+                    what, got, [live[a] for a in adm]), signature='C04:provided-not-most-general')
+
+
+def make_e_provided_order(params, part, nparts):
+    L = params['L']
+    flavour = params.get('flavour', 'adapter')
+    alpha = [('register', i) for i in range(5)] + [('unregister', i) for i in range(5)]
+    NA = len(alpha)
+
+    def h(n: int, o1: int, o2: int, o3: int, o4: int, o5: int):
+        c1 = pick(o1, 5)          # a history starts with a registration
+        assume(c1 % nparts == part)
+        ln = pick(n, L) + 1
+        idx = [c1] + [pick(o, NA) for o in (o2, o3, o4, o5)[:ln - 1]]
+        ops = tuple(alpha[i] for i in idx)
+        reached(tuple(idx), dict(history=[list(map(str, o)) for o in ops]))
+        native(run_provided_order, ops, flavour)
+    return h
+
+
 _ENC = ['zope.interface.adapter:_lookup', 'zope.interface.adapter:AdapterLookupBase._uncached_lookup',
         'zope.interface.adapter:AdapterLookupBase.add_extendor', 'zope.interface.adapter:AdapterLookupBase.remove_extendor',
         'zope.interface.adapter:LookupBaseFallback.lookup', 'zope.interface.adapter:LookupBaseFallback.lookup1',
@@ -272,6 +400,23 @@ HARNESSES = [
             oracle='min over (position in __sro__, position in extendors) among entries registered under exactly that name',
             stubs=['nested dicts replaced by ==-matching association lists (duck-typed .get)', 'stub spec object carrying __sro__'],
             assumptions=['representation invariant: no stored value is None; one value per (required, provided, name)']),
+    Harness('s_extendors', make_s_extendors, kind='S', impls=('py',),
+            tiers=dict(quick=dict(budget_s=120, parts=8, ppt=40, params=dict(n=3)),
+                       thorough=dict(budget_s=600, parts=8, ppt=60, params=dict(n=3))),
+            encoded=['zope.interface.adapter:AdapterLookupBase.add_extendor', 'zope.interface.adapter:AdapterLookupBase.remove_extendor'],
+            bounds='inductive step: an extendors list of <=3 stub interfaces in any order satisfying Inv, for an arbitrary partial order given by '
+                   '12 symbolic booleans (antisymmetric, transitive); one real add_extendor of a fourth interface or remove_extendor of a member',
+            outside='lists longer than 3 (+1); several keys at once (the loop over provided.__iro__ treats keys independently)',
+            oracle='membership exactly once each; Inv: no element strictly extends a later element (most general first)',
+            stubs=['stub interfaces whose isOrExtends reads the symbolic matrix', 'stub lookup object carrying _extendors']),
+    Harness('e_provided_order', make_e_provided_order, kind='E', impls=('py',),
+            tiers=dict(quick=dict(budget_s=100, parts=5, params=dict(L=4)),
+                       thorough=dict(budget_s=1500, parts=5, params=dict(L=5))),
+            encoded=_ENC,
+            bounds='provided-side DAG P0, P1(P0), P2(P0), P3(P1), P4(P1,P2); every history of <=4 (thorough 5) register/unregister calls (10 ops) '
+                   'for one required key, in every order; after each step lookup of every provided interface and of Interface',
+            outside='longer histories; other provided DAGs',
+            oracle='the winner\'s provided interface does not strictly extend the provided interface of another applicable registration'),
 ]
 
 MANIFEST = {
